@@ -29,7 +29,13 @@ pub fn bbi_options(o: &Opts) -> BBIWriteOptions {
             w.max_zooms = *max;
             w.manual_zoom_sizes = None;
         }
-        ZoomSpec::Manual(v) => w.manual_zoom_sizes = Some(v.clone()),
+        ZoomSpec::Manual(v) => {
+            w.manual_zoom_sizes = Some(v.clone());
+            // a manual list overrides max_zooms; the two options are still set independently
+            if let Some(m) = o.max_zooms_with_manual {
+                w.max_zooms = m;
+            }
+        }
     }
     w.channel_size = o.channel_size;
     w.inmemory = o.inmemory;
